@@ -266,8 +266,9 @@ def cli_case(ctx, shard, i, rng):
     specs = ["list", "N", "B", "<r>N", "<r>B", "4DN", "mixed", "default"]
     spec = specs[(shard["sub"] * 4 + i) % len(specs)]
     if spec == "4DN":
-        b = 500
-        lengths = [int(rng.integers(1_400_000, 1_700_000)), int(rng.integers(300_000, 500_000))]
+        b = 1000
+        # >= 6.4 Mb so that the ladder reaches 25 kb (where 1000,2000,5000N differs from 1000N)
+        lengths = [int(rng.integers(5_000_000, 6_000_000)), int(rng.integers(1_500_000, 2_500_000))]
     else:
         b = int([10, 100][int(rng.integers(2))])
         lengths = [int(rng.integers(600, 1500)) * b * 3, int(rng.integers(100, 700)) * b]
